@@ -20,7 +20,7 @@ Begin ==
   /\ j = 0
   /\ cfg' = [fmt |-> Doc.arg.fmt, acc |-> Doc.arg.acc, F |-> FormatOf(Doc.arg.fmt), A |-> AcceptOf(Doc.arg.acc)]
   /\ text' = <<>> /\ stack' = << [n |-> <<>>, k |-> <<>>] >> /\ nn' = 0
-  /\ obs' = [a |-> "none", arg |-> [x |-> 0], exp |-> [ret |-> "ok", tree |-> <<>>, links |-> 0]]
+  /\ obs' = [a |-> "none", arg |-> [x |-> 0], exp |-> [ret |-> "ok", tree |-> <<>>, links |-> 0, ev |-> <<>>]]
   /\ j' = 1 /\ l' = l
 
 ItemAct(it) ==
@@ -50,7 +50,7 @@ TraceInit ==
   /\ l = 1 /\ j = 0 /\ TLCSet(1, 0)
   /\ cfg = [fmt |-> Null, acc |-> Null, F |-> FormatOf(Null), A |-> AcceptOf(Null)]
   /\ text = <<>> /\ stack = << [n |-> <<>>, k |-> <<>>] >> /\ nn = 0
-  /\ obs = [a |-> "none", arg |-> [x |-> 0], exp |-> [ret |-> "ok", tree |-> <<>>, links |-> 0]]
+  /\ obs = [a |-> "none", arg |-> [x |-> 0], exp |-> [ret |-> "ok", tree |-> <<>>, links |-> 0, ev |-> <<>>]]
 
 TraceNext == l <= Len(TraceLog) /\ (Begin \/ Item \/ Finish)
 TraceSpec == TraceInit /\ [][TraceNext]_<<vars, l, j>>
